@@ -55,6 +55,7 @@ type Contract struct {
 	Exceptional []*Clause // onpanic ensures
 	Witnesses   []*Witness
 	Splits      [][]*Clause // case splits applied to every ensures clause (cartesian product)
+	PreCalls    []*DynCall // obligations at calls to a named static callee, evaluated in the caller's scope
 	DynCalls    []*DynCall
 	Uses        []string // axioms assumed in this function
 	TrustFrame  bool     // the modifies clause is assumed, not checked (reported as an assumption)
@@ -91,6 +92,7 @@ type ContractSet struct {
 	Defines map[string]*Define // "pkgpath.name"
 	Globals []*GlobalInv
 	Axioms  map[string]*GlobalInv // "pkgpath.name": assumed facts (never verified here; listed as assumptions)
+	GhostNames map[string]bool    // names used in ghost("name", ...) anywhere
 }
 
 // GlobalInv: "//@ global label:: expr" - a Go expression over package-level variables that are never written
@@ -138,6 +140,19 @@ func (cs *ContractSet) parseFile(path, pkgPath string) error {
 		line = strings.TrimSpace(line[3:])
 		if line == "" || strings.HasPrefix(line, "#") {
 			continue
+		}
+		for rest := line; ; {
+			i := strings.Index(rest, "ghost(\"")
+			if i < 0 {
+				break
+			}
+			rest = rest[i+7:]
+			if j := strings.Index(rest, "\""); j > 0 {
+				if cs.GhostNames == nil {
+					cs.GhostNames = map[string]bool{}
+				}
+				cs.GhostNames[rest[:j]] = true
+			}
 		}
 		word, rest := splitWord(line)
 		if word == "define" {
@@ -342,6 +357,20 @@ func (cs *ContractSet) parseFile(path, pkgPath string) error {
 				alts = append(alts, c)
 			}
 			cur.Splits = append(cur.Splits, alts)
+		case "precall":
+			fld, r2 := splitWord(rest)
+			kw, r3 := splitWord(r2)
+			if kw != "requires" {
+				return fmt.Errorf("%s:%d: precall <callee> requires <expr>", path, ln)
+			}
+			c, err := mk(r3)
+			if err != nil {
+				return err
+			}
+			if c.Label == "" {
+				c.Label = strconv.Itoa(len(cur.PreCalls) + 1)
+			}
+			cur.PreCalls = append(cur.PreCalls, &DynCall{Field: fld, Clause: c})
 		case "dyncall":
 			fld, r2 := splitWord(rest)
 			kw, r3 := splitWord(r2)
